@@ -2713,6 +2713,16 @@ class FnTr:
                 raise Unsupported(f'`{self.inst.qual}`: `{ast.unparse(e)[:60]}`: {a.typ} or …')
             b = self.cv_nat(e.values[1], self.expr(e.values[1]))
             return Val(f'(if {a.text} = 0 then {b} else {a.text})', 'Nat')
+        if isinstance(e, ast.Call) and isinstance(e.func, ast.Name) and e.func.id in ('min', 'max') and e.func.id not in self.env \
+                and len(e.args) == 1 and not e.keywords and not isinstance(e.args[0], ast.GeneratorExp):
+            # `min(xs)` / `max(xs)` over a list of floats of the numeric class: first extremal element, ValueError when empty
+            a = self.expr(e.args[0])
+            if a.typ == 'List N':
+                fn = 'GV.Sphere.pyMin' if e.func.id == 'min' else 'GV.Sphere.pyMax'
+                r = Val(f'(match {fn} {a.text} with | some v => Except.ok v | none => Except.error "ERR:Value")', 'N')
+                r.raises = True
+                return r
+            raise Unsupported(f'`{self.inst.qual}`: {e.func.id} of {a.typ}')
         if isinstance(e, ast.Call) and isinstance(e.func, ast.Name) and e.func.id == 'range' and 'range' not in self.env:
             if len(e.args) == 3 and not e.keywords and _int_const(e.args[1]) == -1 and _int_const(e.args[2]) == -1:
                 a = self.expr(e.args[0])
